@@ -6,6 +6,7 @@ package main
 import (
 	"fmt"
 	"sort"
+	"strconv"
 	"strings"
 )
 
@@ -544,7 +545,7 @@ func fmtWeights(m map[string]int) string {
 	for i, k := range ks {
 		v := "inf"
 		if m[k] != refInfinite {
-			v = fmt.Sprint(m[k])
+			v = strconv.Itoa(m[k])
 		}
 		parts[i] = k + ":" + v
 	}
